@@ -45,12 +45,13 @@ class Ctx:
         self.open_sid = open_sid        # a stream on which the peer may send DATA, or None
         self.opens = None               # id opened by the violating input itself, if any
         self.ended_sid = None           # a peer-initiated / promised stream that ended normally in both directions
+        self.frame_limit = 16384        # our MAX_FRAME_SIZE once every acknowledgement in the input has been seen
 
 
 def v_oversize_frame(c):
     t = c.ch.pick([wire.DATA, wire.PING, wire.SETTINGS, 0x42, wire.HEADERS])
     sid = 0 if t in (wire.PING, wire.SETTINGS) else (c.open_sid or 1)
-    return wire.raw(t, 0, sid, b'\0' * 16385)
+    return wire.raw(t, 0, sid, b'\0' * (c.frame_limit + 1))
 
 
 def v_ping_len(c):
@@ -176,7 +177,8 @@ def v_padding_too_long(c):
 
 def v_data_idle(c):
     sid = c.next_sid + 2 * c.ch.int(0, 3) if not c.client else c.ch.pick([2, 4, 99, 101]) + 1000
-    return wire.data(sid, b'x')
+    # (a payload that only the raised frame-size limit allows, when the prefix has raised it)
+    return wire.data(sid, b'x' * (20000 if c.frame_limit > 20000 and c.ch.bool() else 1))
 
 
 def v_wrong_parity_open(c):
@@ -431,9 +433,20 @@ def run_violation(r, ch, client, name):
         c.open_sid = next((sid for sid, kind in steps if kind == 0), None)
     if name in ('informational-with-end-stream',):
         c.open_sid = next((sid for sid, kind in steps if kind == 0), None)
+    ack_first = b''
+    if ch.chance(56):
+        # our own MAX_FRAME_SIZE has been raised and the peer's acknowledgement arrives in the same receive_data
+        # call as the violating input, right in front of it: the new limit is in force for what follows the ACK,
+        # so the violation is still the one it was (and an over-long frame is one by the new limit)
+        o = ep.call('update_settings', {wire.S_MAX_FRAME_SIZE: 32768})
+        if o.ok:
+            ack_first = wire.settings(ack=True)
+            c.frame_limit = 32768
+            r.labels.add('limit-raised-by-ack-in-the-same-call')
     data = fn(c)
     if data is None:
         return False
+    data = ack_first + data
     o = ep.recv(data)
     r.step('client' if client else 'server', 'prefix', steps, 'violation', name, 'want', code, data, o.brief())
     if o.ok:
